@@ -42,8 +42,10 @@ def directio_on(hdr):
             return False
 
 
-def parse_file(buf):
-    """Parse a whole file.  Returns a list of blocks:
+def parse_file(buf, pad_rule="spec"):
+    """Parse a whole file.  ``pad_rule``: "spec" (the format), or — only to
+    *classify* a failure — "aligned512" (a full 512-byte pad when already aligned),
+    "never", "always" (pad regardless of DIRECTIO).  Returns a list of blocks:
     {offset, cards, header (ordered dict key -> parsed value), raw (key -> raw value string),
      header_bytes, pad, data_offset, data (memoryview)}.
     Raises GuppiFormatError with a classifying ``cls`` when the bytes do not
@@ -78,8 +80,18 @@ def parse_file(buf):
                 raise GuppiFormatError("no_end_card", "no END card in block %d" % len(blocks))
         header_bytes = pos - start
         pad = 0
-        if directio_on(hdr):
+        if pad_rule == "spec":
+            dio = directio_on(hdr)
+            pad = (-header_bytes) % 512 if dio else 0
+        elif pad_rule == "aligned512":
+            dio = directio_on(hdr)
+            pad = (512 - header_bytes % 512) if dio else 0
+        elif pad_rule == "always":
+            dio = True
             pad = (-header_bytes) % 512
+        else:
+            dio = False
+        if dio:
             if pos + pad > n:
                 raise GuppiFormatError("truncated_padding", "padding runs past end of file")
             if any(mv[pos:pos + pad]):
